@@ -140,8 +140,13 @@ fn normalize_basic_value_for_boundaries(
 
             let lower_value = &lower.value;
             let upper_value = &upper.value;
-            let adjust_x_lower = gen_adjust_x_for_lower_boundary(inner_type, &lower);
-            let adjust_x_upper = gen_adjust_x_for_upper_boundary(inner_type, &upper);
+            // The correction for an exclusive boundary must not carry `x` over the opposite
+            // boundary of a narrow range, so it is limited to half of the range.
+            let max_correction = Some(quote!(range * 0.5));
+            let adjust_x_lower =
+                gen_adjust_x_for_lower_boundary(inner_type, &lower, max_correction.clone());
+            let adjust_x_upper =
+                gen_adjust_x_for_upper_boundary(inner_type, &upper, max_correction);
             quote! {
                 let from0to1 = #arbitrary_in_01_range;
 
@@ -161,7 +166,7 @@ fn normalize_basic_value_for_boundaries(
         }
         (Some(lower), None) => {
             let lower_value = &lower.value;
-            let adjust_x = gen_adjust_x_for_lower_boundary(inner_type, &lower);
+            let adjust_x = gen_adjust_x_for_lower_boundary(inner_type, &lower, None);
             quote! {
                 // Compute initial basic value
                 let basic_value = #basic_value;
@@ -173,7 +178,7 @@ fn normalize_basic_value_for_boundaries(
         }
         (None, Some(upper)) => {
             let upper_value = &upper.value;
-            let adjust_x = gen_adjust_x_for_upper_boundary(inner_type, &upper);
+            let adjust_x = gen_adjust_x_for_upper_boundary(inner_type, &upper, None);
             quote! {
                 // Compute initial basic value
                 let basic_value = #basic_value;
@@ -190,17 +195,19 @@ fn normalize_basic_value_for_boundaries(
 fn gen_adjust_x_for_upper_boundary(
     float_type: &FloatInnerType,
     upper_boundary: &Boundary,
+    max_correction: Option<TokenStream>,
 ) -> TokenStream {
     if upper_boundary.is_inclusive {
         quote! { x }
     } else {
         let upper_value = &upper_boundary.value;
         let correction_delta = correction_delta_for_float_type(float_type);
+        let limit_correction = max_correction.map(|max| quote!(.min(#max)));
         quote! {
             if x >= #upper_value {
                 // The fixed delta is smaller than the distance between neighbouring floats
                 // for larger magnitudes, so scale it with the magnitude of `x`.
-                x - (x.abs() * #float_type::EPSILON).max(#correction_delta)
+                x - (x.abs() * #float_type::EPSILON).max(#correction_delta) #limit_correction
             } else {
                 x
             }
@@ -211,19 +218,21 @@ fn gen_adjust_x_for_upper_boundary(
 fn gen_adjust_x_for_lower_boundary(
     float_type: &FloatInnerType,
     lower_boundary: &Boundary,
+    max_correction: Option<TokenStream>,
 ) -> TokenStream {
     if lower_boundary.is_inclusive {
         quote! { x }
     } else {
         let lower_value = &lower_boundary.value;
         let correction_delta = correction_delta_for_float_type(float_type);
+        let limit_correction = max_correction.map(|max| quote!(.min(#max)));
         quote! {
             if x <= #lower_value {
                 // Since there is no upper boundary, we are free to add any positive value here
                 // to adjust so we can satisfy the exclusive lower boundary.
                 // The fixed delta is smaller than the distance between neighbouring floats
                 // for larger magnitudes, so scale it with the magnitude of `x`.
-                x + (x.abs() * #float_type::EPSILON).max(#correction_delta)
+                x + (x.abs() * #float_type::EPSILON).max(#correction_delta) #limit_correction
             } else {
                 x
             }
